@@ -373,4 +373,145 @@ def SysObj.rotateC (fl : K → Int) (s : SysObj K) (U : M3 Int) : Except String 
 
 end
 
+
+/-! ### round 4: crystal family of a cell, the family test and the tolerances of `conventional_to_primitive`
+
+`Box.identifyfamily(rtol, atol)` is a chain of the predicates `iscubic … istriclinic`, each a conjunction of
+`np.isclose` tests between the six lattice parameters `a b c alpha beta gamma` (square roots / arc cosines of the cell
+vectors: handed over as numbers) and the constants 90 and 120.  `check_setting_basis(check_family=True)` returns False
+unless that family is in the setting's list; then the lattice-site test looks for an atom within `atol` of every site.
+`conventional_to_primitive(setting='t')` runs the test for `t1` and for `t2`, each with the caller's tolerances. -/
+
+/-- the six lattice parameters of a cell as `Box.a … Box.gamma` return them (angles in degrees). -/
+structure Cell6 (K : Type) where
+  a : K
+  b : K
+  c : K
+  al : K
+  be : K
+  ga : K
+
+inductive Family where
+  | cubic | hexagonal | tetragonal | rhombohedral | orthorhombic | monoclinic | triclinic
+deriving Repr, BEq, DecidableEq
+
+def Family.name : Family → String
+  | .cubic => "cubic" | .hexagonal => "hexagonal" | .tetragonal => "tetragonal" | .rhombohedral => "rhombohedral"
+  | .orthorhombic => "orthorhombic" | .monoclinic => "monoclinic" | .triclinic => "triclinic"
+
+section
+variable {K : Type} [Add K] [Sub K] [Mul K] [Zero K] [LT K] [LE K] [DecidableLT K] [DecidableLE K]
+
+def absK (x : K) : K := if x < 0 then 0 - x else x
+
+/-- `np.isclose(x, y, rtol=rtol, atol=atol)`: `|x - y| ≤ atol + rtol·|y|` (not symmetric in `x`, `y`). -/
+def closeK (rtol atol x y : K) : Bool := decide (absK (x - y) ≤ atol + rtol * absK y)
+
+end
+
+section
+variable {K : Type}
+
+/-! the predicates take the closeness test `cl` (`closeK rtol atol` when run) and the constants `n90`, `n120`. -/
+def isCubic (cl : K → K → Bool) (n90 : K) (p : Cell6 K) : Bool :=
+  cl p.a p.b && cl p.a p.c && cl p.al n90 && cl p.be n90 && cl p.ga n90
+def isHexagonal (cl : K → K → Bool) (n90 n120 : K) (p : Cell6 K) : Bool :=
+  cl p.a p.b && cl p.al n90 && cl p.be n90 && cl p.ga n120
+def isTetragonal (cl : K → K → Bool) (n90 : K) (p : Cell6 K) : Bool :=
+  cl p.a p.b && !cl p.a p.c && cl p.al n90 && cl p.be n90 && cl p.ga n90
+def isRhombohedral (cl : K → K → Bool) (n90 : K) (p : Cell6 K) : Bool :=
+  cl p.a p.b && cl p.a p.c && cl p.al p.be && cl p.al p.ga && !cl p.al n90
+/-- `a ≠ b` and `a ≠ c`: nothing is asked of `b` against `c` (an orthorhombic cell may have `b = c`). -/
+def isOrthorhombic (cl : K → K → Bool) (n90 : K) (p : Cell6 K) : Bool :=
+  !cl p.a p.b && !cl p.a p.c && cl p.al n90 && cl p.be n90 && cl p.ga n90
+def isMonoclinic (cl : K → K → Bool) (n90 : K) (p : Cell6 K) : Bool :=
+  !cl p.a p.b && !cl p.a p.c && cl p.al n90 && !cl p.be n90 && cl p.ga n90
+def isTriclinic (cl : K → K → Bool) (p : Cell6 K) : Bool :=
+  !cl p.a p.b && !cl p.a p.c && !cl p.al p.be && !cl p.al p.ga
+
+/-- `Box.identifyfamily`: the first predicate of the chain that holds, `none` if none does. -/
+def identifyFamily (cl : K → K → Bool) (n90 n120 : K) (p : Cell6 K) : Option Family :=
+  if isCubic cl n90 p then some .cubic
+  else if isHexagonal cl n90 n120 p then some .hexagonal
+  else if isTetragonal cl n90 p then some .tetragonal
+  else if isRhombohedral cl n90 p then some .rhombohedral
+  else if isOrthorhombic cl n90 p then some .orthorhombic
+  else if isMonoclinic cl n90 p then some .monoclinic
+  else if isTriclinic cl p then some .triclinic
+  else none
+
+end
+
+/-- crystal families for which a Bravais lattice with the setting exists (`check_setting_basis`). -/
+def settingFamilies : String → Option (List Family)
+  | "p" => some [.cubic, .hexagonal, .tetragonal, .rhombohedral, .orthorhombic, .monoclinic, .triclinic]
+  | "i" => some [.orthorhombic, .tetragonal, .cubic]
+  | "f" => some [.orthorhombic, .cubic]
+  | "a" => some [.monoclinic, .orthorhombic]
+  | "b" => some [.monoclinic, .orthorhombic]
+  | "c" => some [.monoclinic, .orthorhombic]
+  | "t1" => some [.hexagonal]
+  | "t2" => some [.hexagonal]
+  | _ => none
+
+/-- `family not in families` (an unidentified family is in no list). -/
+def familyAllowed (setting : String) (fam : Option Family) : Bool :=
+  match settingFamilies setting, fam with
+  | some l, some f => l.contains f
+  | _, _ => false
+
+section
+variable {K : Type} [Add K] [Sub K] [Mul K] [Div K] [IntCast K] [Zero K] [One K] [LT K] [LE K]
+  [DecidableLT K] [DecidableLE K]
+
+/-- the site loop of `check_setting_basis` over any per-site test `hit site atom` (`checkSites` is the instance
+    `hit = onSite fl b`). -/
+def checkSitesBy (hit : V3 K → Atom K → Bool) (atoms : List (Atom K)) : List (V3 K) → Option Int → Option Bool
+  | [], _ => some true
+  | site :: rest, ty =>
+    match (atoms.filter (hit site)).map (·.atype) with
+    | [] => some false
+    | [t] =>
+      match ty with
+      | none => checkSitesBy hit atoms rest (some t)
+      | some t0 => if t = t0 then checkSitesBy hit atoms rest ty else some false
+    | _ => none
+
+/-- the nearest integer `⌊x + 1/2⌋`. -/
+def nearK (fl : K → Int) (x : K) : Int := fl (x + 1 / ((2 : Int) : K))
+
+/-- `index_of_pos` with the caller's tolerance: the atom is within `atol` (Cartesian; `atol2 = atol²`) of the nearest
+    periodic image of the site - `np.isclose(dmag, 0.0, rtol, atol)` is `dmag ≤ atol`, `rtol` multiplies `|0.0|`.
+    (The nearest image is the one `nearK` picks as long as `atol` is small against the cell, `atol·‖V⁻¹‖ < 1/2`.) -/
+def onSiteTol (fl : K → Int) (b : Box K) (atol2 : K) (site : V3 K) (a : Atom K) : Bool :=
+  let s := b.cartToRel a.pos - site
+  let d : V3 K := ⟨s.x - ((nearK fl s.x : Int) : K), s.y - ((nearK fl s.y : Int) : K), s.z - ((nearK fl s.z : Int) : K)⟩
+  decide (V3.normSq (M3.vecMul d b.vects) ≤ atol2)
+
+/-- `check_setting_basis(ucell, setting, rtol, atol, check_family)`: outer `none` = unknown setting, inner `none` =
+    "Multiple overlapping atoms found"; `fam` = `ucell.box.identifyfamily(rtol, atol)`. -/
+def checkSettingBasis (fl : K → Int) (fam : Option Family) (b : Box K) (atol2 : K) (checkFamily : Bool)
+    (setting : String) (atoms : List (Atom K)) : Option (Option Bool) :=
+  match settingSites (K := K) setting with
+  | none => none
+  | some sites =>
+    if checkFamily && !familyAllowed setting fam then some (some false)
+    else some (checkSitesBy (onSiteTol fl b atol2) atoms sites none)
+
+end
+
+/-- the setting `conventional_to_primitive` works with: `check_basis=False` takes the caller's word; an explicit
+    setting must pass the test; `'t'` is tested as `t1` AND as `t2` (both calls are made, with the same tolerances),
+    `t1` wins, then `t2`.  Every refusal is a `ValueError`. `chk` = `checkSettingBasis` with the caller's arguments. -/
+def resolveSetting (chk : String → Option (Option Bool)) (checkBasis : Bool) (setting : String) : Option String :=
+  if !checkBasis then some setting
+  else if setting != "t" then
+    match chk setting with
+    | some (some true) => some setting
+    | _ => none
+  else
+    match chk "t1", chk "t2" with
+    | some (some t1), some (some t2) => if t1 then some "t1" else if t2 then some "t2" else none
+    | _, _ => none
+
 end Atomman.C04
